@@ -1,6 +1,13 @@
 //! API-compatible stand-in for the part of `crossbeam_channel` that s4 uses:
 //! `bounded`, `Sender::send`, `Receiver`, `Receiver::len`, `Select::{new, recv, select}`,
-//! `SelectedOperation::{index, recv}`, `RecvError`, `SendError`.
+//! `SelectedOperation::{index, recv}`, `RecvError`, `SendError` -- plus the neighbouring calls a change to s4
+//! is likely to reach for (`unbounded`, `recv`, `try_recv`, `recv_timeout`, `try_send`, `send_timeout`,
+//! `Select::{select_timeout, try_select}`, `len`/`is_empty`/`is_full`/`capacity`, `iter`) so that such a
+//! change still builds under the simulator.
+//!
+//! Deadlines: a timed or non-blocking call that cannot complete when its thread is scheduled *times out*. While
+//! the plan's `timeouts` budget lasts it may be scheduled although other threads could run (a slow peer); after
+//! that it is scheduled only once nothing else can run (the simulated clock jumps to the deadline).
 //!
 //! Model: FIFO queue with the capacity the caller passes; `send` blocks while the queue is full and
 //! the receiver is alive; a `Select` is ready when any registered receiver is non-empty or
@@ -10,6 +17,7 @@
 use std::collections::VecDeque;
 use std::fmt;
 use std::sync::{Arc, Mutex};
+use std::time::Duration;
 
 use crate::sched::{sched_point, yield_after, lock, Op, ChanMeta};
 
@@ -52,7 +60,114 @@ impl fmt::Display for RecvError {
 
 impl std::error::Error for RecvError {}
 
+#[derive(PartialEq, Eq, Clone, Copy, Debug)]
+pub enum TryRecvError {
+    Empty,
+    Disconnected,
+}
+
+#[derive(PartialEq, Eq, Clone, Copy, Debug)]
+pub enum RecvTimeoutError {
+    Timeout,
+    Disconnected,
+}
+
+#[derive(PartialEq, Eq, Clone, Copy)]
+pub enum TrySendError<T> {
+    Full(T),
+    Disconnected(T),
+}
+
+#[derive(PartialEq, Eq, Clone, Copy)]
+pub enum SendTimeoutError<T> {
+    Timeout(T),
+    Disconnected(T),
+}
+
+#[derive(PartialEq, Eq, Clone, Copy, Debug)]
+pub struct SelectTimeoutError;
+
+#[derive(PartialEq, Eq, Clone, Copy, Debug)]
+pub struct TrySelectError;
+
+macro_rules! plain_error {
+    ($t:ty, $msg:expr) => {
+        impl fmt::Display for $t {
+            fn fmt(&self, f: &mut fmt::Formatter<'_>) -> fmt::Result {
+                $msg.fmt(f)
+            }
+        }
+        impl std::error::Error for $t {}
+    };
+}
+plain_error!(TryRecvError, "receiving on an empty or disconnected channel");
+plain_error!(RecvTimeoutError, "timed out waiting on receive operation or channel disconnected");
+plain_error!(SelectTimeoutError, "timed out waiting on select");
+plain_error!(TrySelectError, "all operations in select would block");
+
+impl<T> fmt::Debug for TrySendError<T> {
+    fn fmt(&self, f: &mut fmt::Formatter<'_>) -> fmt::Result {
+        match self {
+            TrySendError::Full(..) => "Full(..)".fmt(f),
+            TrySendError::Disconnected(..) => "Disconnected(..)".fmt(f),
+        }
+    }
+}
+
+impl<T> fmt::Display for TrySendError<T> {
+    fn fmt(&self, f: &mut fmt::Formatter<'_>) -> fmt::Result {
+        match self {
+            TrySendError::Full(..) => "sending on a full channel".fmt(f),
+            TrySendError::Disconnected(..) => "sending on a disconnected channel".fmt(f),
+        }
+    }
+}
+
+impl<T> fmt::Debug for SendTimeoutError<T> {
+    fn fmt(&self, f: &mut fmt::Formatter<'_>) -> fmt::Result {
+        "SendTimeoutError(..)".fmt(f)
+    }
+}
+
+impl<T> fmt::Display for SendTimeoutError<T> {
+    fn fmt(&self, f: &mut fmt::Formatter<'_>) -> fmt::Result {
+        match self {
+            SendTimeoutError::Timeout(..) => "timed out waiting on send operation".fmt(f),
+            SendTimeoutError::Disconnected(..) => "sending on a disconnected channel".fmt(f),
+        }
+    }
+}
+
+impl<T> TrySendError<T> {
+    pub fn into_inner(self) -> T {
+        match self {
+            TrySendError::Full(v) | TrySendError::Disconnected(v) => v,
+        }
+    }
+    pub fn is_full(&self) -> bool {
+        matches!(self, TrySendError::Full(_))
+    }
+    pub fn is_disconnected(&self) -> bool {
+        matches!(self, TrySendError::Disconnected(_))
+    }
+}
+
+impl<T> SendError<T> {
+    pub fn into_inner(self) -> T {
+        self.0
+    }
+}
+
+/// as crossbeam: a channel of unlimited capacity (`send` never blocks)
+pub fn unbounded<T>() -> (Sender<T>, Receiver<T>) {
+    bounded_with(usize::MAX, 0)
+}
+
 pub fn bounded<T>(cap: usize) -> (Sender<T>, Receiver<T>) {
+    bounded_with(cap, cap)
+}
+
+fn bounded_with<T>(cap: usize, prealloc: usize) -> (Sender<T>, Receiver<T>) {
     let id = {
         let mut g = lock();
         let s = g.as_mut().expect("s4_verif_rt::init() not called");
@@ -62,7 +177,7 @@ pub fn bounded<T>(cap: usize) -> (Sender<T>, Receiver<T>) {
         s.tr(&line);
         id
     };
-    let inner = Arc::new(Inner { id, q: Mutex::new(VecDeque::with_capacity(cap)) });
+    let inner = Arc::new(Inner { id, q: Mutex::new(VecDeque::with_capacity(prealloc)) });
     (Sender { inner: inner.clone() }, Receiver { inner })
 }
 
@@ -79,6 +194,60 @@ impl<T> Sender<T> {
         });
         yield_after("sent");
         r
+    }
+}
+
+impl<T> Sender<T> {
+    fn timed_send(&self, msg: T) -> Result<(), TrySendError<T>> {
+        let id = self.inner.id;
+        let r = sched_point(Op::TimedSend(id), |s| {
+            if !s.chans[id].rx_alive {
+                return Err(TrySendError::Disconnected(msg));
+            }
+            if s.chans[id].len >= s.chans[id].cap {
+                s.timeout_fires(&format!("tsend:{}", id));
+                return Err(TrySendError::Full(msg));
+            }
+            self.inner.q.lock().unwrap().push_back(msg);
+            s.chans[id].len += 1;
+            Ok(())
+        });
+        yield_after("sent");
+        r
+    }
+
+    pub fn try_send(&self, msg: T) -> Result<(), TrySendError<T>> {
+        self.timed_send(msg)
+    }
+
+    pub fn send_timeout(&self, msg: T, _timeout: Duration) -> Result<(), SendTimeoutError<T>> {
+        match self.timed_send(msg) {
+            Ok(()) => Ok(()),
+            Err(TrySendError::Full(m)) => Err(SendTimeoutError::Timeout(m)),
+            Err(TrySendError::Disconnected(m)) => Err(SendTimeoutError::Disconnected(m)),
+        }
+    }
+
+    pub fn len(&self) -> usize {
+        self.inner.q.lock().unwrap().len()
+    }
+    pub fn is_empty(&self) -> bool {
+        self.len() == 0
+    }
+    pub fn capacity(&self) -> Option<usize> {
+        let g = lock();
+        let cap = g.as_ref().map(|s| s.chans[self.inner.id].cap).unwrap_or(usize::MAX);
+        if cap == usize::MAX {
+            None
+        } else {
+            Some(cap)
+        }
+    }
+    pub fn is_full(&self) -> bool {
+        match self.capacity() {
+            Some(c) => self.len() >= c,
+            None => false,
+        }
     }
 }
 
@@ -118,6 +287,61 @@ impl<T> Receiver<T> {
     }
     pub fn is_empty(&self) -> bool {
         self.len() == 0
+    }
+
+    /// blocking receive: a select over this one channel
+    pub fn recv(&self) -> Result<T, RecvError> {
+        let mut sel = Select::new();
+        sel.recv(self);
+        sel.select().recv(self)
+    }
+
+    pub fn recv_timeout(&self, timeout: Duration) -> Result<T, RecvTimeoutError> {
+        let mut sel = Select::new();
+        sel.recv(self);
+        match sel.select_timeout(timeout) {
+            Ok(op) => op.recv(self).map_err(|_| RecvTimeoutError::Disconnected),
+            Err(_) => Err(RecvTimeoutError::Timeout),
+        }
+    }
+
+    pub fn try_recv(&self) -> Result<T, TryRecvError> {
+        let mut sel = Select::new();
+        sel.recv(self);
+        match sel.try_select() {
+            Ok(op) => op.recv(self).map_err(|_| TryRecvError::Disconnected),
+            Err(_) => Err(TryRecvError::Empty),
+        }
+    }
+
+    pub fn iter(&self) -> Iter<'_, T> {
+        Iter { r: self }
+    }
+
+    pub fn try_iter(&self) -> TryIter<'_, T> {
+        TryIter { r: self }
+    }
+}
+
+pub struct Iter<'a, T> {
+    r: &'a Receiver<T>,
+}
+
+impl<T> Iterator for Iter<'_, T> {
+    type Item = T;
+    fn next(&mut self) -> Option<T> {
+        self.r.recv().ok()
+    }
+}
+
+pub struct TryIter<'a, T> {
+    r: &'a Receiver<T>,
+}
+
+impl<T> Iterator for TryIter<'_, T> {
+    type Item = T;
+    fn next(&mut self) -> Option<T> {
+        self.r.try_recv().ok()
     }
 }
 
@@ -189,6 +413,43 @@ impl Select {
             }
             SelectedOperation { index, chan: chans[index] }
         })
+    }
+}
+
+impl Select {
+    fn timed(&mut self) -> Option<SelectedOperation> {
+        if self.chans.is_empty() {
+            panic!("no operations have been added to `Select`");
+        }
+        let chans = self.chans.clone();
+        sched_point(Op::TimedSelect(chans.clone()), |s| {
+            let ready: Vec<usize> = (0..chans.len())
+                .filter(|i| {
+                    let m = &s.chans[chans[*i]];
+                    m.len > 0 || m.senders == 0
+                })
+                .collect();
+            if ready.is_empty() {
+                let v: Vec<String> = chans.iter().map(|c| c.to_string()).collect();
+                s.timeout_fires(&format!("tselect:{}", v.join("+")));
+                return None;
+            }
+            let k = s.pick_select(ready.len());
+            let index = ready[k];
+            if ready.len() > 1 {
+                let line = format!("K {} pick={}/{} chan={}", s.steps, k, ready.len(), chans[index]);
+                s.tr(&line);
+            }
+            Some(SelectedOperation { index, chan: chans[index] })
+        })
+    }
+
+    pub fn select_timeout(&mut self, _timeout: Duration) -> Result<SelectedOperation, SelectTimeoutError> {
+        self.timed().ok_or(SelectTimeoutError)
+    }
+
+    pub fn try_select(&mut self) -> Result<SelectedOperation, TrySelectError> {
+        self.timed().ok_or(TrySelectError)
     }
 }
 
